@@ -8,6 +8,7 @@ import (
 	"testing"
 
 	"github.com/goghcrow/yae"
+	"github.com/goghcrow/yae/parser/ast"
 	"github.com/goghcrow/yae/val"
 	"pgregory.net/rapid"
 
@@ -112,7 +113,7 @@ func genConcCase(t *rapid.T) *ConcCase {
 		wk := CWorker{Spin: rapid.IntRange(0, 2000).Draw(t, "spin")}
 		k := rapid.IntRange(2, 8).Draw(t, "nops")
 		for j := 0; j < k; j++ {
-			wk.Ops = append(wk.Ops, COp{Kind: pick2(t, []string{"own", "own", "shared", "invoke", "invoke", "eval"}), Prog: rapid.IntRange(0, n-1).Draw(t, "prog"), Var: rapid.IntRange(0, c.NVar).Draw(t, "var")})
+			wk.Ops = append(wk.Ops, COp{Kind: pick2(t, []string{"own", "own", "shared", "invoke", "invoke", "eval", "tree"}), Prog: rapid.IntRange(0, n-1).Draw(t, "prog"), Var: rapid.IntRange(0, c.NVar).Draw(t, "var")})
 		}
 		c.Workers = append(c.Workers, wk)
 	}
@@ -218,6 +219,17 @@ func checkConc(c *ConcCase) *Outcome {
 		}
 		sharedCl[i] = cl
 	}
+	// one parsed tree per program (public Expr.Parse), compiled by several goroutines at once on
+	// engines of their own (public Expr.CompileExpr): a compilation only reads its input tree
+	parsedTree := make([]ast.Expr, len(srcs))
+	for i, src := range srcs {
+		if compileErr[i] {
+			continue
+		}
+		if p := run.Guard(func() { parsedTree[i] = newConcEngine(0).Parse(src) }); p != nil {
+			return bad("harness: parse failed: %s", p.Text)
+		}
+	}
 	// ---- the concurrent phase
 	var inflight, overlapped, total int64
 	var wg sync.WaitGroup
@@ -266,6 +278,11 @@ func checkConc(c *ConcCase) *Outcome {
 						if err == nil {
 							v, err = cl(venv)
 						}
+					})
+				case "tree":
+					p = run.Guard(func() {
+						cl := newConcEngine(wi+oi).CompileExpr(parsedTree[op.Prog], tenv)
+						v = cl(venv)
 					})
 				case "eval":
 					if hostOK && !usesHarness[op.Prog] {
@@ -322,7 +339,7 @@ func checkConc(c *ConcCase) *Outcome {
 var c14 = Register(&Prop[ConcCase]{ID: "C14", Name: "concurrent-workloads", Gen: genConcCase, Check: checkConc})
 
 func TestC14(t *testing.T) {
-	R.Rule = "generated workloads under the race detector: 4-32 goroutines, each a drawn sequence of 2-8 operations over 2-6 generated programs (mono / poly calls, built-in and user-registered lazy functions incl. ones that force a thunk twice, dynamic calls, literals, programs that render or hash object literals on their first evaluation): compile + invoke on an engine of its own, compile on a shared engine that has finished its first compilation, invoke a shared callable, one-shot Eval; drawn busy-spin start offsets; oracle: no race report (the detector halts the run; the workload is the replay file) and the environment's values in 1-5 variants (the drawn values, and copies whose every string carries a salt unique to the workload, so that built-ins working on run-time text — match with the pattern from the environment in at least one program per workload — meet text new to the process while other goroutines are inside them); every operation's outcome equals the outcome of the same operation run alone (beforehand for the drawn values, afterwards for the salted ones); non-trivial = at least half of the workload's operations started while another goroutine was inside yae (atomic in-flight counter)"
+	R.Rule = "generated workloads under the race detector: 4-32 goroutines, each a drawn sequence of 2-8 operations over 2-6 generated programs (mono / poly calls, built-in and user-registered lazy functions incl. ones that force a thunk twice, dynamic calls, literals, programs that render or hash object literals on their first evaluation): compile + invoke on an engine of its own, compile on a shared engine that has finished its first compilation, invoke a shared callable, one-shot Eval, compile one shared parsed tree (Expr.Parse once, Expr.CompileExpr per goroutine on an engine of its own); drawn busy-spin start offsets; oracle: no race report (the detector halts the run; the workload is the replay file) and the environment's values in 1-5 variants (the drawn values, and copies whose every string carries a salt unique to the workload, so that built-ins working on run-time text — match with the pattern from the environment in at least one program per workload — meet text new to the process while other goroutines are inside them); every operation's outcome equals the outcome of the same operation run alone (beforehand for the drawn values, afterwards for the salted ones); non-trivial = at least half of the workload's operations started while another goroutine was inside yae (atomic in-flight counter)"
 	R.Assume = []string{"the Go scheduler owns the interleaving: this samples schedules, it does not enumerate them", "the race detector has no false positives"}
 	reportKnown(t, "C14")
 	runRegress(t, "C14")
